@@ -50,8 +50,12 @@ func SysGen() *rapid.Generator[Case] {
 		}
 		if rapid.Bool().Draw(t, "syscallfault") {
 			sf := &SyscallFault{Errno: rapid.SampledFrom([]string{"EIO", "ENOSPC"}).Draw(t, "errno")}
-			sf.Call = rapid.SampledFrom([]string{"", "", "", "read", "read", "sync"}).Draw(t, "call")
-			if sf.Call == "read" || rapid.IntRange(0, 3).Draw(t, "targeted") > 0 {
+			sf.Call = rapid.SampledFrom([]string{"", "", "", "read", "read", "sync", "meta"}).Draw(t, "call")
+			if sf.Call == "meta" {
+				// directory-level calls of the flush / compaction / recovery protocols; untargeted (most take no descriptor)
+				sf.When = rapid.IntRange(1, 40).Draw(t, "when")
+				sf.Errno = rapid.SampledFrom([]string{"EIO", "ENOSPC", "EACCES"}).Draw(t, "errno2")
+			} else if sf.Call == "read" || rapid.IntRange(0, 3).Draw(t, "targeted") > 0 {
 				// a named file of the n-th flushed table or the n-th write-ahead log file
 				n := rapid.IntRange(0, 4).Draw(t, "n") // log files count from 0, tables from 1
 				files := []string{"data", "index", "bloom", "meta", "wal"}
@@ -118,7 +122,8 @@ func sysAttempt(c Case, x *h.Ctx, allowance time.Duration) (viol *h.Violation, h
 	cmd := exec.Command(filepath.Join(build, "runner"), pfile, root, ack)
 	if sc := c.Sys.Syscall; sc != nil {
 		x.Label("leg=system-syscall-fault")
-		calls := map[string]string{"": "write,pwrite64,writev,pwritev,pwritev2", "read": "read,pread64,readv,preadv,preadv2", "sync": "fsync,fdatasync,sync_file_range"}[sc.Call]
+		calls := map[string]string{"": "write,pwrite64,writev,pwritev,pwritev2", "read": "read,pread64,readv,preadv,preadv2", "sync": "fsync,fdatasync,sync_file_range",
+			"meta": "mkdirat,renameat,renameat2,unlinkat,ftruncate,fallocate,linkat"}[sc.Call]
 		if calls == "" || (sc.Call == "read" && sc.File == "") {
 			panic(h.Infra{Msg: "bad syscall fault in case"})
 		}
@@ -289,7 +294,7 @@ func sysAttempt(c Case, x *h.Ctx, allowance time.Duration) (viol *h.Violation, h
 		} else if opErr {
 			eff = "operation-returned-error"
 		}
-		x.Label("syscall-fault-effect=" + map[string]string{"": "write", "read": "read", "sync": "fsync"}[sc.Call] + "/" + eff)
+		x.Label("syscall-fault-effect=" + map[string]string{"": "write", "read": "read", "sync": "fsync", "meta": "dirop"}[sc.Call] + "/" + eff)
 	}
 	x.SetNonTrivial(fired || (c.Sys.Syscall != nil && (exit != 0 || opErr)))
 	return nil, false
@@ -297,7 +302,7 @@ func sysAttempt(c Case, x *h.Ctx, allowance time.Duration) (viol *h.Violation, h
 
 func faultDesc(sc *SysCase) string {
 	if sc.Syscall != nil {
-		call := map[string]string{"": "write(2)", "read": "read(2)/pread64(2)", "sync": "fsync(2)"}[sc.Syscall.Call]
+		call := map[string]string{"": "write(2)", "read": "read(2)/pread64(2)", "sync": "fsync(2)", "meta": "mkdirat/renameat/unlinkat/ftruncate/fallocate/linkat"}[sc.Syscall.Call]
 		if sc.Syscall.File != "" {
 			return fmt.Sprintf("the %d-th %s on %s (per thread) fails with %s", sc.Syscall.When, call, sc.Syscall.path(), sc.Syscall.Errno)
 		}
